@@ -5,7 +5,8 @@
 (* projection of the real trie after the call (harness/cmd/c02):           *)
 (*   gets    TryGet of every key of the universe (value id, 0 = absent)    *)
 (*   iter    the pairs trie.Iterator yields, in order                      *)
-(*   nit     the nodes trie.NodeIterator yields: <<path, leaf, hashed>>    *)
+(*   nit     the nodes trie.NodeIterator yields: <<path length, last nibble,*)
+(*           leaf, hashed>>                                                *)
 (*   mem     the in-memory node graph (read by reflection before any call) *)
 (*   tree    the stored node graph (decoded from the committed blobs with  *)
 (*           the harness's own RLP splitter), hashed = paths of the nodes  *)
@@ -49,7 +50,7 @@ Fresh(ev, j) == LET Occ(t) == Cardinality({i \in 1..Len(bad) : bad[i][2] = ev /\
                 IN  [i \in 1..Len(keep) |-> <<l, ev, keep[i]>>]
 
 Obs(e)  == [k \in AllKeyIds |-> e.proj.gets[k]]
-Sane(c) == \A k \in AllKeyIds : c[k] \in 0..8
+Sane(c) == \A k \in AllKeyIds : c[k] \in 0..9
 
 RECURSIVE ContentAfter(_, _)
 ContentAfter(c, ops) ==
@@ -87,7 +88,9 @@ JudgeVersions(e, ops) ==
   IN  IF Len(p.vsame) # Len(vs) THEN <<"Proj.versions">>
       ELSE Tag(\A i \in 1..Len(vs) : i \in va[3] \cup va[4] => p.vsame[i] = vs[i], "Inv.VersionReadsOnSameDatabase") \o
            Tag(\A i \in 1..Len(vs) : i \in va[3] \cup va[4] => p.vsameIter[i] = IterOf(vs[i]), "Inv.VersionIterationOnSameDatabase") \o
-           Tag(\A i \in 1..Len(vs) : i \in va[4] => p.vfresh[i] = vs[i], "Inv.VersionReadsFromDisk")
+           (* from the disk store alone: once the version went to disk, and whenever its root node is
+              in the disk store, whatever put it there (what is on disk is closed under references) *)
+           Tag(\A i \in 1..Len(vs) : (i \in va[4] \/ p.vroot[i]) => p.vfresh[i] = vs[i], "Inv.VersionReadsFromDisk")
 
 JudgeStep(e, c2) ==
   CASE e.event = "Reset" ->
@@ -128,12 +131,13 @@ FullInv(e, c2) ==
       fl == Flat(cn)
       hashedOf == SelectSeq([i \in 1..Len(fl) |-> IF fl[i][2] # "V" /\ ~fl[i][4] THEN fl[i][1] ELSE <<99>>],
                             LAMBDA x : x # <<99>>)
-      nitOf == [i \in 1..Len(fl) |-> <<fl[i][1], fl[i][2] = "V", ~fl[i][4]>>]
+      nitOf == [i \in 1..Len(fl) |-> <<Len(fl[i][1]), IF fl[i][1] = <<>> THEN 99 ELSE fl[i][1][Len(fl[i][1])],
+                                        fl[i][2] = "V", ~fl[i][4]>>]
   IN  Tag(~p.iterErr /\ p.iter = IterOf(c2), "Inv.IterationOrder") \o
       Tag(p.storedOK /\ p.tree = cn, "Inv.StoredStructureCanonical") \o
       Tag(p.memOK /\ p.mem = cn, "Struct.memory") \o
       Tag(p.hashed = hashedOf, "Struct.embedded") \o
-      Tag(~p.nitErr /\ (p.nit = nitOf \/ (c2 = Empty /\ p.nit = << <<<<>>, FALSE, FALSE>> >>)),
+      Tag(~p.nitErr /\ (p.nit = nitOf \/ (c2 = Empty /\ p.nit = << <<0, 99, FALSE, FALSE>> >>)),
           "Struct.nodeIterator") \o
       Tag(~p.commitErr /\ p.commit = p.hash, "Inv.RootHashEqualsCommit") \o
       Tag(p.ref = p.hash, "Inv.RootIsMptRootOfStructure") \o
